@@ -414,6 +414,189 @@ func ruleSyncErrorFatal(r *Run, p *Program, rule string) {
 	r.universe(rule, n, 3)
 }
 
+// ruleErrorFatal: in the operations that acknowledge a state change, a failed step makes the operation fail. For
+// every call below the entry that can return an error - a module function, or a method of fs.File / fs.FileSystem /
+// fs.LockFile - the interprocedural walk is started right after the call with its error assumed non-nil; a nil return
+// of the entry must not be reachable. This is the path-sensitive form of 'no error is dropped': an error that is
+// tested but shadowed, overwritten on the way up, or only logged is found too. Reviewed exceptions: errorFatalExceptions.
+var errorFatalExceptions = map[string]string{
+	"(*pogreb.datalog).openSegment->pogreb.readGobFile": "a missing or unreadable segment meta is tolerated (logged): the meta is rebuilt by recovery or starts empty",
+	"(*pogreb.datalog).removeSegment->FileSystem.Remove": "the meta side file may not exist (never written before the first Close): os.IsNotExist is tolerated for it, any other error is returned",
+	"(*pogreb.DB).recover->pogreb.removeRecoveryBackupFiles": "left-over *.bac files are harmless (ignored by Open, removed by the next recovery): the failure is logged",
+	"(*pogreb.recoveryIterator).next->(*pogreb.segmentIterator).next": "a damaged or torn tail (io.EOF / io.ErrUnexpectedEOF / errCorrupted) is not a failure of recovery: the segment is truncated there (C08); which errors count as a damaged tail is checked by the gates rule",
+}
+
+// sentinelsOf: the sentinel error variables a module function can return ("*": something that is not tracked).
+var sentinelCache = map[*ssa.Function]map[string]bool{}
+
+func sentinelsOf(p *Program, g *ssa.Function, d int) map[string]bool {
+	if m, ok := sentinelCache[g]; ok {
+		return m
+	}
+	out := map[string]bool{}
+	sentinelCache[g] = out // recursion guard
+	if g.Blocks == nil || d > 8 {
+		out["*"] = true
+		return out
+	}
+	idx := errResultIndex(g)
+	if idx < 0 {
+		return out
+	}
+	for _, ret := range returnsOf(g) {
+		for _, o := range sources(retOperand(ret, idx)) {
+			o = strip(o)
+			if isNilConst(o) {
+				continue
+			}
+			if gl := globalLoad(o); gl != "" {
+				out[gl] = true
+				continue
+			}
+			if c, _ := callResult(o); c != nil {
+				for k := range sentinelsOfCall(p, c, d+1) {
+					out[k] = true
+				}
+				continue
+			}
+			if _, ok := o.(*ssa.MakeInterface); ok {
+				continue // a freshly built error value
+			}
+			out["*"] = true
+		}
+	}
+	return out
+}
+
+func sentinelsOfCall(p *Program, c *ssa.Call, d int) map[string]bool {
+	out := map[string]bool{}
+	if c.Call.IsInvoke() && devirt[c.Call.Method] == nil {
+		switch c.Call.Method.Name() {
+		case "Read", "ReadAt", "Slice":
+			out["io.EOF"], out["io.ErrUnexpectedEOF"] = true, true
+		}
+		return out
+	}
+	g := c.Call.StaticCallee()
+	if g == nil {
+		g = devirt[c.Call.Method]
+	}
+	if g == nil {
+		out["*"] = true // a function value: unknown
+		return out
+	}
+	if !inModule(g) {
+		switch g.String() {
+		case "io.ReadFull", "(*bufio.Reader).Read", "(*bufio.Reader).Peek", "(*bufio.Reader).Discard", "io.CopyN", "io.Copy":
+			out["io.EOF"], out["io.ErrUnexpectedEOF"] = true, true
+		}
+		return out // wrapped / freshly made errors
+	}
+	return sentinelsOf(p, g, d)
+}
+
+func sentinelsAt(p *Program, s Node) map[string]bool {
+	c, ok := s.In.(*ssa.Call)
+	if !ok {
+		return map[string]bool{"*": true}
+	}
+	return sentinelsOfCall(p, c, 0)
+}
+
+func ruleErrorFatal(entries ...string) ruleFn {
+	return func(r *Run, p *Program, rule string) {
+		n := 0
+		for _, ek := range entries {
+			f := p.Fn(ek)
+			if !r.anchor(rule, ek, f != nil) {
+				continue
+			}
+			r.fn(ek)
+			all, root := allNodes(p, f)
+			var sites []Node
+			for nd := range all.Reached {
+				c, ok := nd.In.(*ssa.Call)
+				if !ok {
+					continue
+				}
+				sig := c.Call.Signature()
+				if sig == nil || sig.Results().Len() == 0 || !isErrorType(sig.Results().At(sig.Results().Len()-1).Type()) {
+					continue
+				}
+				if e := fsEventOf(nd); e != nil {
+					sites = append(sites, nd)
+					continue
+				}
+				if g := c.Call.StaticCallee(); g != nil && inModule(g) {
+					sites = append(sites, nd)
+				}
+			}
+			sort.Slice(sites, func(i, j int) bool {
+				if sites[i].In.Pos() != sites[j].In.Pos() {
+					return sites[i].In.Pos() < sites[j].In.Pos()
+				}
+				return sites[i].Ctx.String() < sites[j].Ctx.String()
+			})
+			seen := map[string]bool{}
+			okCount := 0
+			for _, s := range sites {
+				c := s.In.(*ssa.Call)
+				name := strings.TrimSuffix(callString(&c.Call), "()")
+				if e := fsEventOf(s); e != nil {
+					name = strings.TrimPrefix(e.Iface, "fs.") + "." + e.Method
+				}
+				construct := funcKey(s.Ctx.Fn) + "->" + name
+				if seen[construct+"@"+p.Pos(c.Pos())] {
+					continue
+				}
+				seen[construct+"@"+p.Pos(c.Pos())] = true
+				n++
+				if why, ok := errorFatalExceptions[construct]; ok {
+					r.ok(rule, ek+":"+construct, p.Pos(c.Pos()), "reviewed exception: "+why, false)
+					continue
+				}
+				// steps below an excepted call share its exception (their failure surfaces as that call's failure)
+				under := false
+				for cx := s.Ctx; cx != nil && cx.Parent != nil; cx = cx.Parent {
+					if cc := callOf(cx.Site); cc != nil {
+						if _, ok := errorFatalExceptions[funcKey(cx.Parent.Fn)+"->"+strings.TrimSuffix(callString(cc), "()")]; ok {
+							under = true
+						}
+					}
+				}
+				if under {
+					continue
+				}
+				// the failing step cannot have returned a sentinel it never returns: comparisons of an error with such a
+				// sentinel are false on the explored paths
+				sent := sentinelsAt(p, s)
+				w := &IPWalk{P: p, StartFailed: true, FailedIsNot: func(gl string) bool {
+					// the failure explored is a real error: not the iterators' "done" signal, and not a sentinel the
+					// failing step never returns
+					if gl == "pogreb.ErrIterationDone" {
+						return true
+					}
+					return !sent["*"] && !sent[gl]
+				}}
+				w.Run(root, []Node{s})
+				bad := false
+				for nd := range w.Reached {
+					if w.rootSuccess(nd) {
+						bad = true
+						r.bad(rule, ek+":"+construct, p.Pos(c.Pos()), ek+" can return nil although "+name+" (in "+funcKey(s.Ctx.Fn)+") failed: the error is shadowed, overwritten, only logged or dropped on the way up, and the operation is acknowledged as if the step had happened", w.PathTo(nd)...)
+						break
+					}
+				}
+				if !bad {
+					okCount++
+				}
+			}
+			r.ok(rule, ek, p.Pos(f.Pos()), fmt.Sprintf("%d error-returning steps below this entry: when any of them fails the entry cannot return nil", okCount), true)
+		}
+		r.universe(rule, n, 5)
+	}
+}
+
 // ruleC09CommitLast: the lock file is released after everything else; required steps all happen before it.
 func ruleCloseOrder(r *Run, p *Program, rule string) {
 	f := p.Fn("(*pogreb.DB).Close")
@@ -703,9 +886,15 @@ func edgeDominatesNot(fn *ssa.Function, b *ssa.BasicBlock, k int, target ssa.Ins
 	return true
 }
 
-func isSegmentsElem(v ssa.Value) bool {
+func isSegmentsElem(v ssa.Value) bool { return isSegmentsElemSeen(v, map[ssa.Value]bool{}) }
+
+func isSegmentsElemSeen(v ssa.Value, seen map[ssa.Value]bool) bool {
 	// load of &segments[i], or range element extracted from the array
 	v = strip(v)
+	if v == nil || seen[v] {
+		return false
+	}
+	seen[v] = true
 	switch x := v.(type) {
 	case *ssa.UnOp:
 		if x.Op == token.MUL {
@@ -717,7 +906,7 @@ func isSegmentsElem(v ssa.Value) bool {
 		return strings.HasSuffix(fieldOrIndexBase(x.X), "datalog.segments")
 	case *ssa.Phi:
 		for _, e := range x.Edges {
-			if isSegmentsElem(e) {
+			if isSegmentsElemSeen(e, seen) {
 				return true
 			}
 		}
